@@ -80,6 +80,10 @@ def run_cases(prop, P, cases, tag):
                         kind = "decode" if v in (2, 3, 9) else ("spec" if chk.startswith("spec_") else "corr")
                         findings.append({"case": name.split(":")[0], "kind": kind, "check": chk, "detail": f"verdict {v} on {name}"})
         stats.setdefault("outs", []).extend(outs)
+        if P.get("post"):
+            f2, st2 = P["post"](cases, xs)
+            findings += f2
+            stats.update(st2)
     return findings, stats
 
 
@@ -310,6 +314,7 @@ def finish(prop, tier, seed, P, t0, nviol, obl, cases, findings, broken, assumpt
         "findings": [dict(f) for f in findings[:10]],
         "harness_lines_compared": stats.get("harness_lines", 0),
         "distribution": P.get("distribution", lambda cs: {})(cases),
+        "run_stats": {k: v for k, v in stats.items() if k != "outs"},
     }
     core.write_evidence(prop, tier, seed, P["level"], coverage, time.time() - t0, nviol, P["assumptions"])
 
